@@ -24,8 +24,22 @@ class Registry:
         if id(c) in self.items:
             return
         small = len(self.items) < 400
-        self.items[id(c)] = (c, self.snap(c, small), origin)
+        snap = self.snap(c, small)
+        self.items[id(c)] = (c, snap, origin)
         self.R.count('cells_registered')
+        if small:
+            # no state carried between calls: an object graph with no history at all (parsed afresh from an independent encoding of the
+            # same DAG) must serialise to the very same bytes as this cell, whatever was called on this cell, its parents or children before
+            try:
+                from pytoniq_core.boc import Cell
+                fresh = Cell.one_from_boc(rc.encode_boc([bridge.from_lib(c)]))
+                want = tuple(fresh.to_boc(*o) for o in OPTS)
+            except rc.RefError:
+                want = None
+            if want is not None:
+                self.R.count('fresh_clone_comparisons')
+                self.R.check(want == snap['boc'], 'to_boc-depends-on-history', f'a cell (from {origin}) serialises differently from a freshly parsed copy of the '
+                             'same DAG: the result depends on calls made before', {'origin': origin, 'bits': snap['bits'][:64], 'nrefs': len(c.refs)})
         for x in c.refs:
             self.add(x, origin + '>ref')
 
@@ -74,6 +88,11 @@ def history(R, B, rng, n_ops, W):
         if len(cells) > 12:
             cells.pop(rng.randrange(len(cells)))
 
+    touched = []      # derived objects the current operation is allowed to change
+
+    def dstate(o):
+        return (o.bits.to01(), tuple(id(x) for x in o.refs), getattr(o, 'ref_offset', None))
+
     def note(op):
         trace.append(op)
         R.count(f'op:{op}')
@@ -82,7 +101,7 @@ def history(R, B, rng, n_ops, W):
 
     # seed pool
     for i in range(3):
-        r = gen.rand_dag(rng, rng.choice([1, 3, 8]), max_bits=rng.choice([12, 70, 600]))
+        r = gen.rand_dag(rng, rng.choice([1, 3, 8]), max_bits=rng.choice([12, 70, 600, 1000]))
         new_cell(bridge.to_lib(r, rng.choice(['builder', 'boc', 'direct_tvm', 'direct_plain'])), 'seed')
     from pytoniq_core.boc import HashMap
     hm = HashMap(16).with_uint_values(8)
@@ -107,6 +126,7 @@ def history(R, B, rng, n_ops, W):
         if not slices:
             return op_begin_parse()
         s = rng.choice(slices)
+        touched.append(s)
         k = rng.randrange(9)
         n = rng.randint(0, min(40, s.remaining_bits + 2))
         if k == 0:
@@ -137,6 +157,7 @@ def history(R, B, rng, n_ops, W):
         if not builders:
             builders.append(B.Builder())
         b = rng.choice(builders)
+        touched.append(b)
         k = rng.randrange(8)
         if k == 0:
             b.store_uint(rng.getrandbits(9), 9)
@@ -224,15 +245,19 @@ def history(R, B, rng, n_ops, W):
         k = rng.randrange(6)
         if k == 0 and slices:
             s = rng.choice(slices)
+            touched.append(s)
             s.bits.invert() if rng.random() < 0.5 else s.bits.clear()
         elif k == 1 and slices:
             s = rng.choice(slices)
+            touched.append(s)
             s.refs.append(B.Cell.empty()) if rng.random() < 0.5 else (s.refs and s.refs.pop())
         elif k == 2 and builders:
             b = rng.choice(builders)
+            touched.append(b)
             b.bits.invert()
         elif k == 3 and builders:
             b = rng.choice(builders)
+            touched.append(b)
             b.refs.clear() if rng.random() < 0.5 else b.refs.reverse()
         elif k == 4:
             c = rng.choice(cells)
@@ -273,11 +298,23 @@ def history(R, B, rng, n_ops, W):
     for _ in range(n_ops):
         name, f, _w = rng.choice(weighted)
         note(name)
+        touched.clear()
+        derived = [(o, dstate(o)) for o in slices + builders]
         st, e = mon.call(f)
         if st == 'exc':
             R.exc(e)                      # operations may legitimately fail (overflow, underflow, not a message ...)
             R.count('ops_raised')
         reg.validate(name, trace)
+        # derived objects are isolated from each other too: an operation on one slice / builder changes no other slice / builder
+        for o, before in derived:
+            if any(o is t for t in touched):
+                continue
+            R.counters['oracle_evaluations'] += 1
+            R.count('derived_isolation_checks')
+            if dstate(o) != before:
+                R.violation(f'derived-{type(o).__name__}-changed-by-{name}-on-another-object', f'a {type(o).__name__} changed although operation {name} '
+                            f'was applied to another object: derived objects share state', {'trace': trace[-15:], 'bits_before': before[0][:64], 'bits_now': dstate(o)[0][:64]})
+                return trace
         if R.violations:
             return trace          # the pool is corrupt from here on: stop this history at the first violation
         if len(slices) > 10:
@@ -332,6 +369,8 @@ def run(R):
         R.count('histories')
     stateless(R, B, rng)
     R.floor('registry_validations', 500)
+    R.floor('fresh_clone_comparisons', 100)
+    R.floor('derived_isolation_checks', 1000)
     R.floor('order_postconditions', 20)
     R.floor('pure_reevaluations', 20)
     R.floor('transitions', 100, 'set')
